@@ -10,7 +10,7 @@ sel={name.split('-')[0]}
 for p in props:
     if set(p['anchors']['files']) & set(files): sel.add(p['id'])
 for f in files:
-    if 'crates/anstyle-parse/' in f: sel|={'C01','C02','C03','C04','C07','C18','C20'}
+    if 'crates/anstyle-parse/' in f: sel|={'C01','C02','C04','C20'}
     if f.startswith('crates/anstyle/'): sel|={'C05','C13','C16'}
     if f.endswith('anstream/src/fmt.rs'): sel|={'C06','C08','C18'}
     if 'anstyle-lossy' in f: sel|={'C10','C14','C18'}
